@@ -201,8 +201,9 @@ theorem C10F_same_outcome_text (dec : CType → LockCmd → LockRes) (s : Node) 
 /-! ## one reply -/
 
 /-- **At most one result per request**, over every event sequence: if the client never reuses a RequestId on a
-connection, the leader answers each forwarded LOCK / UNLOCK at most once and on the link instance it arrived on, and no
-answer overtakes `Write`'s bookkeeping (`OkRun`), then no RequestId occurs twice among the lock / unlock results a
+connection and the leader answers each forwarded LOCK / UNLOCK at most once and on the link instance it arrived on
+(`OkRun`; since the repair of `Write` it no longer matters whether an answer overtakes the writer), then no RequestId
+occurs twice among the lock / unlock results a
 connection's client is handed — refusals, own-table TIMEOUTs, rollbacks and relays all counted (`delivered`). -/
 theorem C10F_one_reply (evs : List Event) (hok : OkRun {} evs) (c : Nat) (x : Conn) (hx : (run evs).conns[c]? = some x) :
     (delivered c {} evs).Nodup :=
@@ -257,14 +258,17 @@ theorem C10F_one_reply_rerouted_violated :
        .leaderMsg 0 (.lockRes (localRes .lock (demoCmd 3 10 0 5) 0 1 1 [])) false] = [3, 3] := by
   decide
 
-/-- **VIOLATED (at most one — the race)**: the leader's answer to LOCK 1 is read before `Write` has recorded LOCK 1 as
-the latest command (`early`): it is relayed, nothing is cleared, and when the link is lost later the already answered
-request is "rolled back" — the client is handed SUCCED and then ERROR for the same request. -/
-theorem C10F_one_reply_early_violated :
+/-- REPAIRED (was `C10F_one_reply_early_violated`: SUCCED, then ERROR at the next link loss): the leader's answer to
+LOCK 1 is read before `Write` returns (`early`). `Write` now records the command as the latest one BEFORE its bytes leave,
+so the answer clears it whichever goroutine runs first: relayed once, nothing is "rolled back" when the link is lost. -/
+theorem C10F_early_answer_harmless :
     delivered 0 {}
       [.accept .binary, .request 0 false (.lk .lock .wait (demoCmd 1 10 0 0) .noDb),
-       .leaderMsg 0 (.lockRes (localRes .lock (demoCmd 1 10 0 0) 0 1 1 [])) true, .linkDown 0] = [1, 1] := by
-  decide
+       .leaderMsg 0 (.lockRes (localRes .lock (demoCmd 1 10 0 0) 0 1 1 [])) true, .linkDown 0] = [1] ∧
+    ∀ (s : Node) (c : Nat) (m : LeaderMsg) (early : Bool), step s (.leaderMsg c m early) = step s (.leaderMsg c m false) := by
+  refine ⟨by decide, ?_⟩
+  intro s c m early
+  cases early <;> rfl
 
 /-! ## INIT: two ways its answer is lost (observed on the real code, mirrored by the model) -/
 
